@@ -172,6 +172,21 @@ def main():
                 res['dst_cases'] += 1
                 record({'tz': boot_tz, 'sec': s, 'micro': (i * 7919) % 1000000,
                         'kind': kinds[(i + d) % 9], 'off': 330})
+    # ---- 1a. every offset regime of the zone's history (the stretch between two
+    # transitions), however short, with every input kind: random instants weight regimes by
+    # their duration and would hardly ever land in a zone's first few years
+    bounds = [0] + transitions + [2**32 - 1]
+    res['regimes'] = 0
+    for i in range(len(bounds) - 1):
+        lo, hi = bounds[i], bounds[i + 1] - 1
+        if hi <= lo:
+            continue
+        res['regimes'] += 1
+        for j, s in enumerate((lo, lo + (hi - lo) // 3, (lo + hi) // 2, hi)):
+            for k, kind in enumerate(kinds):
+                res['dst_cases'] += 1
+                record({'tz': boot_tz, 'sec': s, 'micro': (i * 104729 + j) % 1000000,
+                        'kind': kind, 'off': (i * 37 + k) % 2879 - 1439})
     # ---- 1b. fold pairs: every year 1971..2105, both orders
     for year in range(1971, 2106):
         for order in (0, 1):
